@@ -57,9 +57,14 @@ func F0(e *Env) {
 				case *ssa.MakeChan:
 					why = "channel"
 				case *ssa.Defer:
+					// a deferred call runs after the return values are fixed; it can
+					// change what the caller sees only by assigning to named results
+					// (or by recovering, banned below), so it is harmless to the path
+					// arguments when the enclosing function has no named results.  The
+					// effect rules (E3, E5) visit deferred calls like ordinary ones.
 					n := prov.CalleeName(&x.Call)
-					if !strings.HasSuffix(n, ".Close") {
-						why = "defer of " + n
+					if !strings.HasSuffix(n, ".Close") && hasNamedResults(fn) {
+						why = "defer of " + n + " in a function with named results"
 					}
 				case *ssa.Call:
 					n := prov.CalleeName(&x.Call)
@@ -87,11 +92,21 @@ func F0(e *Env) {
 	}
 	e.R.Counts["library_functions_in_scope"] = nf
 	if bad == 0 {
-		e.R.OK("F0", "library-code-facts", "-", "no go/select/channel/recover/unsafe/reflect, defer only for Close, in library functions").NonTrivial = false
+		e.R.OK("F0", "library-code-facts", "-", "no go/select/channel/recover/unsafe/reflect in library functions, defer only for Close or in functions without named results").NonTrivial = false
 	}
 }
 
 func thoroughExtras(e *Env, f checkFn) {
 	// filled in by thorough.go
 	runThorough(e, f)
+}
+
+func hasNamedResults(fn *ssa.Function) bool {
+	res := fn.Signature.Results()
+	for i := 0; i < res.Len(); i++ {
+		if n := res.At(i).Name(); n != "" && n != "_" {
+			return true
+		}
+	}
+	return false
 }
